@@ -26,10 +26,24 @@ pub struct Cfg {
     pub rx_async: bool,
     pub depth: usize,
     pub slim: bool,
+    /// explore only the subtree below the k-th action enabled in the initial state (one child process per subtree)
+    #[serde(default)]
+    pub shard: Option<usize>,
 }
 impl Cfg {
     pub fn name(&self) -> String {
-        format!("topic/cap{}/{}{}/d{}{}", self.cap, if self.tx_async { "A" } else { "S" }, if self.rx_async { "A" } else { "S" }, self.depth, if self.slim { "/slim" } else { "" })
+        format!(
+            "topic/cap{}/{}{}/d{}{}{}",
+            self.cap,
+            if self.tx_async { "A" } else { "S" },
+            if self.rx_async { "A" } else { "S" },
+            self.depth,
+            if self.slim { "/slim" } else { "" },
+            match self.shard {
+                Some(k) => format!("/s{:02}", k),
+                None => String::new(),
+            }
+        )
     }
 }
 
@@ -449,7 +463,10 @@ pub fn run_cfg(cfg: &Cfg) -> (Scenario, Vec<Violation>) {
                 samples.push(serde_json::json!({"history": format!("{:?}", w.log)}));
             }
         }
-        let acts = if n < cfg.depth { w.enabled(cfg) } else { vec![] };
+        let mut acts = if n < cfg.depth { w.enabled(cfg) } else { vec![] };
+        if let (0, Some(k)) = (n, cfg.shard) {
+            acts = acts.into_iter().skip(k).take(1).collect();
+        }
         drop(w);
         for a in acts {
             hist.push(a);
@@ -495,20 +512,29 @@ pub fn run_cfg(cfg: &Cfg) -> (Scenario, Vec<Violation>) {
     )
 }
 
+pub fn root_actions(cfg: &Cfg) -> usize {
+    World::new(cfg).enabled(cfg).len()
+}
+
 pub fn configs(tier: &str) -> Vec<Cfg> {
     let quick = tier == "quick";
-    let mut v = vec![];
+    let mut base = vec![];
     for cap in [1usize, 2] {
         for (ta, ra) in [(false, false), (true, true)] {
-            if quick && cap == 2 && ta {
-                continue;
-            }
-            v.push(Cfg { cap, tx_async: ta, rx_async: ra, depth: if quick { 4 } else { 5 }, slim: quick });
+            base.push(Cfg { cap, tx_async: ta, rx_async: ra, depth: if quick { 5 } else { 6 }, slim: quick, shard: None });
         }
     }
+    base.push(Cfg { cap: 1, tx_async: false, rx_async: true, depth: if quick { 5 } else { 6 }, slim: quick, shard: None });
+    base.push(Cfg { cap: 1, tx_async: true, rx_async: false, depth: if quick { 5 } else { 6 }, slim: quick, shard: None });
     if !quick {
-        v.push(Cfg { cap: 1, tx_async: false, rx_async: true, depth: 5, slim: false });
-        v.push(Cfg { cap: 1, tx_async: false, rx_async: false, depth: 6, slim: true });
+        base.push(Cfg { cap: 1, tx_async: false, rx_async: false, depth: 7, slim: true, shard: None });
+    }
+    // one child process per subtree below each action enabled in the initial state
+    let mut v = vec![];
+    for c in base {
+        for k in 0..root_actions(&c) {
+            v.push(Cfg { shard: Some(k), ..c.clone() });
+        }
     }
     v
 }
